@@ -153,15 +153,16 @@ theorem C07_not_key_iff_full : ¬ C07_key_iff_full := by
   have := (h x y hx hy).mp hk
   rw [hv] at this; cases this
 
-/-- known finding C07-semver-range-original-key: `SemVerRange('1.x')` and `SemVerRange('>=1.0.0 <2.0.0')` (the same parsed
-    ranges, so Equal) have different keys — the key is the string the range was parsed from; `Unique` keeps both and a Hash
-    keyed by one does not find the other -/
+/-- the former witnesses of finding C07-semver-range-original-key (the key of a SemVerRange was the string it was parsed from,
+    `Equals` compares the parsed ranges; /repo fix 2f932dc "the key is the normalized form"): `SemVerRange('1.x')` and the
+    same ranges without an original string are Equal and now have ONE key, `Unique` keeps one, a Hash keyed by one finds
+    the other -/
 def rangeOneX : Val := .vrange [0x31, 0x2e, 0x78] [.se ⟨.ge, ⟨1, 0, 0, none, none⟩⟩ ⟨.lt, ⟨2, 0, 0, none, none⟩⟩]
 def rangeOneN : Val := .vrange [] [.se ⟨.ge, ⟨1, 0, 0, none, none⟩⟩ ⟨.lt, ⟨2, 0, 0, none, none⟩⟩]
-theorem C07_key_iff_fails_range_original :
-    EqComparable rangeOneX ∧ EqComparable rangeOneN ∧ veq rangeOneX rangeOneN = true ∧ veq rangeOneN rangeOneX = true ∧
-    (key rangeOneX).isSome = true ∧ (key rangeOneN).isSome = true ∧ key rangeOneX ≠ key rangeOneN ∧
-    (unique [rangeOneX, rangeOneN]).length = 2 ∧ (hashGet [(rangeOneX, .int 1)] rangeOneN).isSome = false := by decide
+theorem C07_range_original_repaired :
+    Comparable rangeOneX ∧ Comparable rangeOneN ∧ veq rangeOneX rangeOneN = true ∧ veq rangeOneN rangeOneX = true ∧
+    key rangeOneX = key rangeOneN ∧ (key rangeOneX).isSome = true ∧
+    (unique [rangeOneX, rangeOneN]).length = 1 ∧ (hashGet [(rangeOneX, .int 1)] rangeOneN).isSome = true := by decide
 
 /-- the same two findings seen through `Hash.Get` and `Unique` -/
 theorem C07_get_fails_raw_string :
@@ -257,7 +258,8 @@ theorem C07_key_iff_topsafe (x y : Val) (hx : Comparable x) (hy : Comparable y) 
 /-! ## the kinds of the extension round: URI, SemVer, SemVerRange
 
 A URI, a SemVer as `semver.NewVersion3` makes it (`verOk`: Go ints, parts matching the two part patterns, a part that
-`strconv.ParseInt` accepts held as an int) and a SemVerRange WITHOUT an original string (`arOk`) are `Comparable`, so every
+`strconv.ParseInt` accepts held as an int) and a SemVerRange of such versions (`arOk`), whatever string it was parsed from,
+are `Comparable`, so every
 theorem above and below speaks about them at any nesting depth.  What that rests on: the printed form of a version and the
 normalized form of a range are injective (`%d` is read back by `ParseInt`; the separators `.` `-` `+` blank `||` cannot occur
 inside a part). -/
@@ -290,17 +292,15 @@ theorem C07_semver_key_iff (a b : Ver) (ha : verOk a = true) (hb : verOk b = tru
 def C07_range_key_iff_full : Prop := ∀ (o o' : Bytes) (rs qs : List ARange), (∀ r ∈ rs, arOk r = true) → (∀ q ∈ qs, arOk q = true) →
   (key (.vrange o rs) = key (.vrange o' qs) ↔ veq (.vrange o rs) (.vrange o' qs) = true)
 
-/-- proved part: ranges without an original string (built through the API, or after the repair proposed for the finding) -/
-theorem C07_range_key_iff_partial (rs qs : List ARange) (hr : ∀ r ∈ rs, arOk r = true) (hq : ∀ q ∈ qs, arOk q = true) :
-    key (.vrange [] rs) = key (.vrange [] qs) ↔ veq (.vrange [] rs) (.vrange [] qs) = true :=
+/-- the full statement holds since the /repo fix 2f932dc (it was refuted by `1.x` against the same ranges without an original
+    string while the key was the original string) -/
+theorem C07_range_key_iff : C07_range_key_iff_full := fun _ _ rs qs hr hq =>
   C07_key_iff_topsafe _ _ (by simpa [Comparable, cmp] using hr) (by simpa [Comparable, cmp] using hq) (TopSafe_of_not_str rfl rfl)
 
-/-- the full statement is false of the code as it is: known finding C07-semver-range-original-key -/
-theorem C07_not_range_key_iff_full : ¬ C07_range_key_iff_full := by
-  intro h
-  have := (h [0x31, 0x2e, 0x78] [] [.se ⟨.ge, ⟨1, 0, 0, none, none⟩⟩ ⟨.lt, ⟨2, 0, 0, none, none⟩⟩]
-    [.se ⟨.ge, ⟨1, 0, 0, none, none⟩⟩ ⟨.lt, ⟨2, 0, 0, none, none⟩⟩] (by decide) (by decide)).mpr (by decide)
-  exact absurd this (by decide)
+/-- (the part that was provable before the fix: ranges without an original string) -/
+theorem C07_range_key_iff_partial (rs qs : List ARange) (hr : ∀ r ∈ rs, arOk r = true) (hq : ∀ q ∈ qs, arOk q = true) :
+    key (.vrange [] rs) = key (.vrange [] qs) ↔ veq (.vrange [] rs) (.vrange [] qs) = true :=
+  C07_range_key_iff [] [] rs qs hr hq
 
 /-- non-vacuity: `1.0.0-rc.-5+b1` in an array beside a URI, as a hash key; two different builds; a two-range SemVerRange -/
 def sampleV : Ver := ⟨1, 0, 0, some [.txt [0x72, 0x63], .num (-5)], some [[0x62, 0x31]]⟩
@@ -312,7 +312,7 @@ example : key (.semver ⟨1, 0, 0, none, some [[0x62, 0x31]]⟩) ≠ key (.semve
   absurd (C07_key_inj _ _ (by decide) (by decide) (TopSafe_of_not_str rfl rfl) h) (by decide)
 example : (hashGet [(.semver verMin, .int 1)] (.semver ⟨0, 0, 0, none, none⟩)).isSome = false := by decide
 def sampleR : List ARange := [.se ⟨.ge, ⟨1, 0, 0, none, none⟩⟩ ⟨.lt, ⟨2, 0, 0, none, none⟩⟩, .simple ⟨.eq, ⟨3, 0, 0, none, none⟩⟩]
-example : Comparable (.vrange [] sampleR) ∧ ¬ Comparable (.vrange [0x31] sampleR) := by decide
+example : Comparable (.vrange [] sampleR) ∧ Comparable (.vrange [0x31] sampleR) := by decide
 example : key (.array [.vrange [] sampleR]) = key (.array [.vrange [] sampleR]) ∧
     key (.vrange [] sampleR) ≠ key (.vrange [] [.simple ⟨.eq, ⟨3, 0, 0, none, none⟩⟩]) := by decide
 
